@@ -38,6 +38,10 @@ def load_check(pid):
 
 
 def main(argv):
+    # scratch directories of checks that use the real file system carry this tag, so that two runs of the same
+    # check with the same VERIF_SEED (e.g. quick and thorough side by side) never share a directory; fixed width,
+    # so that path lengths - and with them message sizes and schedules - do not depend on it
+    os.environ.setdefault("VERIF_RUN_TAG", "%08x" % (os.getpid() & 0xFFFFFFFF))
     from vsim import runner
 
     if not argv:
